@@ -93,12 +93,12 @@ def proj_write(op, out):
 
 TRIVIAL = {'init', 'dump', 'wf', 'lookup_all', 'reset_world'}
 
-def correspondence(ctx, session_fns, project, oracle, what, stream_name, driver='drv_api.c', impl_env=None, extra=()):
+def correspondence(ctx, session_fns, project, oracle, what, stream_name, driver='drv_api.c', impl_env=None, extra=(), san=None):
     """Run each session (a callable (impl, rng, stats) driving the harness interactively) on the
     implementation, replay the recorded ops on the model, compare the projected outputs and
     evaluate the direct oracle on the implementation's outputs."""
     work = ctx['work']
-    exe, log = vlib.build_harness(os.path.join(work, 'h'), driver, extra)
+    exe, log = vlib.build_harness(os.path.join(work, 'h' + (stream_name if san else '')), driver, extra, san)
     if not exe:
         ctx['violation']('harness-build', 'the harness no longer compiles against /repo', {'log': log[-3000:]}, False)
         return
@@ -125,7 +125,7 @@ def correspondence(ctx, session_fns, project, oracle, what, stream_name, driver=
         if len(samples) < 3:
             k = min(len(ops), 10)
             samples.append({'stream': stream_name, 'ops': [x[:300] for x in ops[1:k]], 'impl': [x[:300] for x in iouts[1:k]]})
-        if rc != 0 or impl.dead or 'ERROR: ' in err or 'runtime error' in err:
+        if rc != 0 or impl.dead or 'ERROR: ' in err or 'runtime error' in err or 'WARNING: ThreadSanitizer' in err:
             idx = len([x for x in iouts if x not in ('<dead>',)])
             ctx['violation']('failing-input', 'the implementation crashed, exited or a sanitizer fired (%s stream)' % stream_name,
                              {'ops': ops[max(0, idx - 30):idx + 1], 'stderr': err[-3000:], 'rc': rc}, True)
@@ -444,6 +444,55 @@ def run_C20(ctx):
                        'C20 entry-point equivalence', 'entries')
     ctx['cov']['boundary_texts'] = len(texts)
 
+def proj_lex(op, out):
+    return out if first_word(op) == 'lex' else None
+
+def run_C18(ctx):
+    rng = Rng(ctx['seed'] * 86028121 + 18)
+    n = 3000 if ctx['tier'] == 'quick' else 60000
+    texts = streams.c18_texts(rng, n)
+    for i in range(0, len(texts), 10000):
+        e = {}
+        correspondence(ctx, [streams.sess_c18(texts[i:i + 10000], e)], proj_lex, streams.oracle_c18(e), 'C18 tokenization', 'lex')
+
+def run_C13(ctx):
+    expect = {}
+    def fn(impl, rng, stats):
+        for sc in range(6):
+            out = impl.do('alloccase %d -1 0' % sc)
+            n = int(out.split(' ')[1]) if out.startswith('count ') else 0
+            ks = list(range(n)) + [n, n + 5]
+            for k in ks:
+                impl.do('alloccase %d %d %d' % (sc, k, n))
+                expect[len(impl.ops) - 1] = ('handler' if k < n else 'normal-same', sc, k, n)
+                stats['c13:scenario%d' % sc] = stats.get('c13:scenario%d' % sc, 0) + 1
+    def oracle(ops, outs):
+        for i, (want, sc, k, n) in expect.items():
+            if i < len(outs) and outs[i] != want:
+                return i, 'scenario %d: failing allocation %d of %d -> %s (required: %s)' % (sc, k, n, outs[i], want)
+        return None
+    def proj(op, out):
+        return 'count' if out.startswith('count') else out
+    correspondence(ctx, [fn], proj, oracle, 'C13 allocation failure handling', 'alloc-faults', driver='drv_alloc.c',
+                   extra=('-Wl,--wrap=malloc', '-Wl,--wrap=calloc', '-Wl,--wrap=realloc', '-Wl,--wrap=strdup'),
+                   impl_env={'ASAN_OPTIONS': 'detect_leaks=0'})
+    ctx['cov']['exhaustive'] = True
+
+def run_C14(ctx):
+    def fn(impl, rng, stats):
+        cases = [(2, 3), (4, 3), (8, 4), (16, 2)] if ctx['tier'] == 'quick' else [(2, 20), (4, 20), (8, 20), (16, 10), (16, 30), (3, 50)]
+        for nt, rounds in cases:
+            for rep in range(2 if ctx['tier'] == 'quick' else 5):
+                impl.do('thrcase %d %d %d' % (nt, rounds, rng.below(1 << 30)))
+                stats['c14:threads%d' % nt] = stats.get('c14:threads%d' % nt, 0) + 1
+    def oracle(ops, outs):
+        for i, o in enumerate(outs):
+            if not o.startswith('ok '):
+                return i, 'a thread obtained results that differ from its serial run: ' + o
+        return None
+    correspondence(ctx, [fn], lambda op, out: out.split(' ')[0], oracle, 'C14 thread independence', 'threads', driver='drv_thr.c',
+                   extra=('-lpthread',), san='-fsanitize=thread', impl_env={'TSAN_OPTIONS': 'halt_on_error=1 exitcode=66'})
+
 COMMON_ASSUMPTIONS = [
     'NULL config_t*/config_setting_t*, dangling handles and non-NUL-terminated strings are out of contract',
     'ctype classification is that of the C/UTF-8 locales',
@@ -451,6 +500,9 @@ COMMON_ASSUMPTIONS = [
 ]
 
 REGISTRY = {
+    'C14': dict(modules=['LibconfigModel.Properties.C14'], run=run_C14, assumptions=COMMON_ASSUMPTIONS + ['the C memory model and races inside libc are outside the model; ThreadSanitizer observes executed paths only', 'config_set_fatal_error_func is not called concurrently (it writes the only mutable static object)']),
+    'C13': dict(modules=['LibconfigModel.Properties.C13'], run=run_C13, assumptions=COMMON_ASSUMPTIONS + ['what the process does after a handler that returns is documented as undefined and not examined', 'allocations inside libc (fopen, newlocale, stdio buffers) are not the library\'s own and are not failed']),
+    'C18': dict(modules=['LibconfigModel.Properties.C18'], run=run_C18, assumptions=COMMON_ASSUMPTIONS + ['the generic flex matching loop (Flex.lean) is a hand-written model of the skeleton flex emits for every scanner; it is tied by the lex correspondence']),
     'C20': dict(modules=['LibconfigModel.Properties.C20'], run=run_C20, assumptions=COMMON_ASSUMPTIONS + ['the pointer arithmetic of yy_get_next_buffer (generated flex code) is outside the model; it is exercised at the 8/16/32 KiB boundaries under ASan']),
     'C15': dict(modules=['LibconfigModel.Properties.C15'], run=run_C15, assumptions=COMMON_ASSUMPTIONS + ['the comma-decimal locale is synthesised from C.utf8 by patching the radix byte of LC_NUMERIC (the sandbox has no other locales)', 'glibc newlocale with a NULL base yields the "C" locale in every category']),
     'C12': dict(modules=['LibconfigModel.Properties.C12'], run=run_C12, assumptions=COMMON_ASSUMPTIONS + ['stdio reports a failed write(2) through fflush()/ferror(); a successful fclose() means the kernel accepted all data']),
